@@ -115,6 +115,15 @@ def flat(v: T.Any) -> T.List[T.Any]:
     return [v]
 
 
+def mentions_id(e: T.Any) -> bool:
+    """does the expression AST contain an identifier?"""
+    if isinstance(e, list):
+        if e and e[0] == 'id':
+            return True
+        return any(mentions_id(x) for x in e[1:])
+    return False
+
+
 class TreeEval(R.Evaluator):
     """reference evaluator + project()/files()/targets/dependency()."""
 
@@ -149,7 +158,9 @@ class TreeEval(R.Evaluator):
         if fname in TARGET_FUNCS:
             oa = self.ordered_args(args)
             rec = {'fn': fname, 'file': self.cur_file, 'dir': self.curdir, 'args': oa,
-                   'asts': {kw: ex for kw, ex in args if kw is not None}}
+                   'asts': {kw: ex for kw, ex in args if kw is not None},
+                   # a name that mentions a variable (loop variable, option value): static analysis cannot address such a target
+                   'computed': bool(args and args[0][0] is None and mentions_id(args[0][1]))}
             self.calls.append(rec)
             name = oa[0][1] if oa and oa[0][0] is None else None
             if R.tname(name) != 'str' if name is not None else True:
@@ -261,7 +272,7 @@ def read_tree(texts: T.Dict[str, str]) -> Model:
         m.targets.append({'name': name, 'fn': rec['fn'], 'dir': rec['dir'], 'file': rec['file'],
                           'sources': sorted(src_paths(rec['dir'], srcs)), 'extra': sorted(src_paths(rec['dir'], extra)),
                           'extra_scalar': any(not isinstance(v, list) for v in extra),     # extra_files: 'a.h' (a value that is not a list)
-                          'args': other})
+                          'args': other, 'computed': bool(rec.get('computed'))})
     return m
 
 
@@ -746,6 +757,56 @@ def all_exprs_of_stmts(stmts: T.List[list]) -> T.List[list]:
     return out
 
 
+def ids_by_position(e: T.Any, in_cond: bool, value_ids: T.Set[str], cond_ids: T.Set[str]) -> None:
+    """identifiers of an expression, split into those that can contribute to its VALUE and those that only steer it
+    (condition of a ternary, operands of a comparison / and / or / not, the index of an index expression)"""
+    if not isinstance(e, list) or not e:
+        return
+    k = e[0]
+    if k == 'id':
+        (cond_ids if in_cond else value_ids).add(e[1])
+        return
+    if k == 'tern':
+        ids_by_position(e[1], True, value_ids, cond_ids)
+        ids_by_position(e[2], in_cond, value_ids, cond_ids)
+        ids_by_position(e[3], in_cond, value_ids, cond_ids)
+        return
+    if k == 'idx':
+        ids_by_position(e[1], in_cond, value_ids, cond_ids)
+        ids_by_position(e[2], True, value_ids, cond_ids)
+        return
+    if k == 'not' or (k == 'bin' and R.PREC[R._binlevel(e[1])] <= 4):
+        for c, _m, _c in child_slots(e):
+            ids_by_position(c, True, value_ids, cond_ids)
+        return
+    for c, _m, _c in child_slots(e):
+        ids_by_position(c, in_cond, value_ids, cond_ids)
+
+
+def only_steers(call_texts: T.List[str], target: str, var_stmt: str) -> bool:
+    """is the variable assigned by `var_stmt` mentioned by the call that declares `target` ONLY in steering positions?"""
+    try:
+        vs = R.parse(var_stmt)
+    except (R.ParseError, RecursionError):
+        return False
+    names = {st[1] for st in vs if st[0] in ('assign', 'plusassign')}
+    if not names:
+        return False
+    for txt in call_texts:
+        try:
+            stmts = R.parse(txt)
+        except (R.ParseError, RecursionError):
+            continue
+        for top in all_exprs_of_stmts(stmts):
+            if top[0] == 'call' and top[1] in TARGET_FUNCS and top[2] and top[2][0][0] is None and top[2][0][1][:2] == ['str', target]:
+                value_ids: T.Set[str] = set()
+                cond_ids: T.Set[str] = set()
+                for _kw, a in top[2][1:]:
+                    ids_by_position(a, False, value_ids, cond_ids)
+                return bool(names & cond_ids) and not (names & value_ids)
+    return False
+
+
 def attribute(old_texts: T.List[str]) -> T.Optional[str]:
     """root-cause class for a re-printed statement whose meaning changed: first culprit among the argument
     expressions of the ORIGINAL statement(s)"""
@@ -939,10 +1000,12 @@ class Skip(Exception):
 def info_steps(snap: dict) -> T.List[dict]:
     cmds: T.List[dict] = []
     for tg in snap['targets']:
-        cmds.append({'type': 'target', 'target': tg.get('_id', tg['name']), 'operation': 'info'})
+        if not tg.get('computed'):
+            cmds.append({'type': 'target', 'target': tg.get('_id', tg['name']), 'operation': 'info'})
     cmds.append({'type': 'kwargs', 'function': 'project', 'id': '/', 'operation': 'info'})
     for tg in snap['targets']:
-        cmds.append({'type': 'kwargs', 'function': 'target', 'id': tg.get('_id', tg['name']), 'operation': 'info'})
+        if not tg.get('computed'):
+            cmds.append({'type': 'kwargs', 'function': 'target', 'id': tg.get('_id', tg['name']), 'operation': 'info'})
     for dp in snap['deps']:
         if isinstance(dp['name'], str):
             cmds.append({'type': 'kwargs', 'function': 'dependency', 'id': dp['name'], 'operation': 'info'})
@@ -1013,7 +1076,8 @@ def compare_info(info: T.Optional[dict], snap: dict, asts: T.Optional[T.Dict[str
     byname: T.Dict[str, T.List[dict]] = {}
     for tid, d in tinfo.items():
         byname.setdefault(d.get('name'), []).append(d)
-    for tg in snap['targets']:
+    addressable = [t for t in snap['targets'] if not t.get('computed')]
+    for tg in addressable:
         cands = byname.get(tg['name'], [])
         if len(cands) != 1:
             return ('target-missing', f'target {tg["name"]!r}: {len(cands)} entries in the info dump, expected 1')
@@ -1028,11 +1092,11 @@ def compare_info(info: T.Optional[dict], snap: dict, asts: T.Optional[T.Dict[str
                 continue
             if got != want:
                 return (key, f'target {tg["name"]!r}: info reports {key} {got}, reference reading of the file gives {want}')
-    if len(tinfo) != len(snap['targets']):
-        return ('target-count', f'info lists {sorted(tinfo)} but the reference finds targets {[t["name"] for t in snap["targets"]]}')
+    if len(tinfo) != len(addressable):
+        return ('target-count', f'info lists {sorted(tinfo)} but the reference finds targets {[t["name"] for t in addressable]}')
     kinfo = info.get('kwargs', {})
     checks: T.List[T.Tuple[str, str, T.List[T.List[T.Any]]]] = [('project#/', 'project#/', snap['project'])]
-    for tg in snap['targets']:
+    for tg in addressable:
         checks.append((f'target#{tg.get("_id", tg["name"])}', f'target#{tg["name"]}', tg['args']))
     for dp in snap['deps']:
         if isinstance(dp['name'], str):
@@ -1421,7 +1485,7 @@ class Judge:
         for c in (step or {}).get('cmds', []):
             if c['type'] == 'target' and c['operation'] in ('src_add', 'extra_files_add'):
                 names = ["'" + os.path.basename(f) + "'" for f in c.get('sources', [])] + ['/' + os.path.basename(f) + "'" for f in c.get('sources', [])]
-                if any(n in txt and n not in was for n in names):
+                if any(n in txt and n not in was for n in names) and only_steers(old, str(c.get('_name', c.get('target'))), was):
                     # the new file went into a list outside the data flow of the addressed argument (a list that the source
                     # expression only mentions in a condition / comparison / index)
                     return 'effect/add:foreign-list-extended'
@@ -2109,7 +2173,7 @@ class TreeGen:
     def source_piece(self, rel: str, tdir: str, names: T.List[str], allow_shared: bool) -> dict:
         """statements + an argument expression that contributes the files `names` (strings as written)"""
         shape = self.g.weighted([(10, 'inline'), (12, 'list'), (5, 'nested'), (14, 'var'), (9, 'var_files'), (8, 'var_plus'),
-                                 (4, 'alias'), (4, 'wrap'), (4, 'getvar'), (5, 'concat'), (4, 'exprelem'), (3, 'files_inline'),
+                                 (4, 'alias'), (4, 'wrap'), (4, 'getvar'), (5, 'concat'), (4, 'exprelem'), (3, 'files_inline'), (5, 'tern_list'),
                                  (8 if allow_shared else 0, 'shared_new'), (10 if allow_shared and self.shared else 0, 'shared_use')])
         out: dict = {'shape': shape, 'stmts': [], 'args': [], 'vars': [], 'files': []}       # files: (string, resolve dir, literal, shared)
         lits = [(n, tdir, True, False) for n in names]
@@ -2173,6 +2237,13 @@ class TreeGen:
                 b = newvar(['arr', self.strs(names[k:])])
                 out['args'] = [['bin', '+', ['id', a], ['id', b]]]
             out['files'] = lits
+        elif shape == 'tern_list':
+            # the whole argument is a ternary of two lists (both branches hold the same files, so that the value does not depend on
+            # the condition): whatever an edit appends or wraps around it has to apply to the ternary as a whole
+            cond = self.pick([['bool', True], ['bool', False], ['bin', '<', ['int', 1, 'd'], ['int', 2, 'd']], ['not', ['bool', True]]])
+            k = self.i(len(names) + 1)
+            out['args'] = [['tern', cond, ['arr', self.strs(names)], ['arr', self.strs(names[k:] + names[:k])]]]
+            out['files'] = [(n, tdir, False, False) for n in names]
         elif shape == 'exprelem':
             n0 = names[0]
             cut = 1 + self.i(max(1, len(n0) - 1))
@@ -2286,7 +2357,17 @@ class TreeGen:
             'extra_files': ({os.path.normpath(os.path.join(d, s)): {'literal': lit, 'shared': sh} for s, d, lit, sh in extra['files']} if extra else {}),
             'kwlit': {k: self.is_literal_kw(v) for k, v in kws},
             'src_foreign': any(p.get('foreign_cond') for p in pieces), 'extra_foreign': bool(extra and extra.get('foreign_cond')),
+            # the whole sources / extra_files argument is an operator expression: an edit that wraps or extends it must apply to all of it
+            'src_opexpr': any(p['shape'] in ('tern_list', 'concat') for p in pieces), 'extra_opexpr': bool(extra and extra.get('shape') in ('tern_list', 'concat')),
         }
+        # targets whose NAME is a loop variable, fed by the same shared list: static analysis cannot name them, the edit of another
+        # target must still leave their source sets alone
+        sh = next((p['shared'] for p in pieces if p.get('shared')), None)
+        if sh is not None and sh['kind'] == 'list' and self.chance(35):
+            lv = self.fresh('lp')
+            nms = [f'{name}_{lv}{k}' for k in range(2)]
+            self.add(rel, ['foreach', [lv], ['arr', self.strs(nms)],
+                           [['expr', ['call', 'executable', [[None, ['id', lv]], [None, ['id', sh['var']]]]]]]])
 
     @staticmethod
     def is_literal_kw(v: list) -> str:
@@ -2413,7 +2494,7 @@ class TreeGen:
     def gen_steps(self, model: Model) -> T.Tuple[T.List[dict], T.Optional[str], str]:
         snap = copy.deepcopy(model.snapshot())
         env = model.env
-        alive = [t['name'] for t in snap['targets']]
+        alive = [t['name'] for t in snap['targets'] if not t.get('computed')]      # targets a command can address
         original = list(alive)
         added: T.List[str] = []
         cmds: T.List[dict] = []
@@ -2484,6 +2565,14 @@ class TreeGen:
             if not alive:
                 kinds = [(w, k) for w, k in kinds if k in ('target_add', 'kw_project', 'defopt', 'error', 'kw_dep')]
             k = self.g.weighted(kinds)
+            opx = [(n, f) for n in alive for f in ('src', 'extra') if self.tmeta[n].get(f + '_opexpr')]
+            if opx and not cmds and self.chance(50):
+                # a target whose whole source / extra_files argument is `c ? [..] : [..]` or `a + [..]`: extend exactly that one
+                name, f = self.pick(opx)
+                if not foreign(name, f):
+                    push(src_cmd(name, 'src_add' if f == 'src' else 'extra_files_add', new_files(name, '.c' if f == 'src' else '.h')))
+                    self.tmeta[name].setdefault('fresh', set()).update(cmds[-1]['sources'])
+                    return
             if k == 'src_add':
                 name = subject()
                 if foreign(name, 'src'):
